@@ -379,7 +379,8 @@ func ruleSummaryByBuilder(c *Ctx, rule string) {
 						return "", "", false
 					}
 					if call, isCall := calleeIs(in, setter); isCall {
-						return canonAlloc(f, an.AP(call.Args[0])), "store:" + a.FSummary, true
+						nodeIdx, _, _ := summarySetterArgs(a, setter)
+						return canonAlloc(f, an.AP(call.Args[nodeIdx])), "store:" + a.FSummary, true
 					}
 				}
 			}
